@@ -396,7 +396,7 @@ func (sim) Assumptions() []string {
 		"account keys of accounts >= 1 are derived by the code base from the coin-type key after a text round trip (32 bytes kept), account 0 from the in-memory key; the oracle models exactly that and the difference only exists when the coin-type key has a leading zero byte",
 		"entropy (crypto/rand in snacl / waddrmgr: salts, nonces, validation challenges) is not seeded; nothing that is logged or compared depends on it",
 		"memory probe sees buffers reachable from the Manager; copies already dropped for the garbage collector and objects only the caller still holds are out of its sight",
-		"DeriveFromKeyPathCache on an imported extended-public-key account while unlocked is not called (it dereferences the nil account private key); noted, outside the four properties",
+		"DeriveFromKeyPathCache and Extend*Addresses on an imported extended-public-key account while unlocked dereference the nil account private key; only C03 (whose quantifier includes imported accounts) triggers and reports that crash, the other properties keep it as a precondition",
 		"single task: lock/unlock races are left to the concurrent simulations",
 	}
 }
